@@ -28,6 +28,7 @@ referenced by cells).'''
 import json
 import random
 import re
+import sys
 
 import numpy as np
 
@@ -431,7 +432,7 @@ def render(deck):
         lines.append(f'{surf_name(s)}{tr} {s["text"]}')
     lines.append('')
     for num, vec in deck.get('trs', {}).items():
-        lines.append(f'tr{num} {vec[0]} {vec[1]} {vec[2]}')
+        lines.append(f'tr{num} ' + ' '.join(str(x) for x in vec))
     if deck.get('trs'):
         lines.append('')
     return '\n'.join(lines) + '\n'
@@ -530,9 +531,11 @@ def mcnp_value(deck, s, p, shift=None):
         p = tuple(mcnpref.to_aux({'O': v[:3],
                                   'B': v[3:12] if len(v) > 3 else None}, p))
     if s.get('tr'):
-        vec = deck['trs'][s['tr']]
-        p = tuple(np.asarray(p, float) - np.array(vec, float))
-    if mn in ('kz', 'k/z') and len(prm) in (3, 5):
+        vec = [float(x) for x in deck['trs'][s['tr']]]
+        p = tuple(mcnpref.to_aux({'O': vec[:3],
+                                  'B': vec[3:12] if len(vec) > 3 else None}, p))
+    if (mn in ('kx', 'ky', 'kz') and len(prm) == 3) or \
+            (mn in ('k/x', 'k/y', 'k/z') and len(prm) == 5):
         prm = prm[:-1]       # one-sheet cone: the written cone has both sheets
     if mn == 'sph':
         mn = 's'
@@ -912,7 +915,128 @@ def corpus_decks():
 
 # ---- richer decks for the sweep (outside the model) ------------------------
 
+# flagged surfaces of every mnemonic family, with and without a transformation
+# (TR number on the card, TRCL on the cell, FILL with a transformation); the
+# oracle needs no descriptor classes: loci are compared numerically
+FAMILIES = [
+    'p 1 2 -1 3', 'p 0 0 4 4 0 1 0 5 2', 'px 2', 'py -3', 'pz 1',
+    'so 6', 's 1 -2 0.5 5', 'sx 2 4', 'sy -1 5', 'sz 3 6',
+    'c/x 1 -1 3', 'c/y 0 2 4', 'c/z -2 1 3', 'cx 4', 'cy 3', 'cz 5',
+    'k/x 1 0 -1 0.5', 'k/y 0 2 0 0.25', 'k/z 1 1 0 2', 'kx 1 0.5', 'ky -2 1',
+    'kz 0 0.3', 'kx 1 0.5 1', 'ky -2 1 -1', 'k/z 1 1 0 2 -1', 'k/x 1 0 -1 0.5 1',
+    'sq 1 2 3 0 0 0 -30 1 -1 0.5', 'sq 1 1 0 0 0 -2 -4 0 0 1',
+    'sq 2 1 -1 0 0 0 -9 0 1 0',
+    'gq 1 2 1.5 0.4 0 0.2 1 -2 0 -25', 'gq 1 1 -1 0 0.5 0 0 0 2 -6',
+    'tx 0 0 0 5 1 2', 'ty 1 0 -1 4 1.5 1', 'tz 0 1 0 6 2 1',
+    'x 1 2 4 2', 'y 3 1 3 4', 'z 1 2 5 2',
+]
+FAMILY_TRS = ['1 0 0', '0 2 -1', '0.5 0.5 -1',
+              '0 3 0 0 1 0 -1 0 0 0 0 1', '1 -1 2 1 0 0 0 0 1 0 -1 0',
+              '0 0 1 0 0 1 1 0 0 0 1 0']
+
+
+def gen_family(rng):
+    n = rng.randint(2, 4)
+    texts = rng.sample(FAMILIES, n)
+    ids = rng.sample(range(1, 60), n + 1)
+    surfs = [{'id': ids[i], 'flag': '', 'text': texts[i], 'mcnp': 1,
+              'cls': 2000 + FAMILIES.index(texts[i]), 'aux': [],
+              'single': True, 'pool': None, 'locus': texts[i]}
+             for i in range(n)]
+    for s in rng.sample(surfs, rng.choice([1, 1, 2])):
+        s['flag'] = rng.choice('*+')
+    trs = {}
+    mode = rng.choice(['tr', 'tr', 'trcl', 'trcl', 'fill', 'none'])
+    flagged = [s for s in surfs if s['flag']]
+    if mode == 'tr':
+        trs[7] = [float(x) for x in rng.choice(FAMILY_TRS).split()]
+        for s in flagged:
+            s['tr'] = 7
+        if rng.random() < 0.3:
+            rng.choice(surfs)['tr'] = 7
+    if mode == 'fill' and n >= 3:
+        surfs.sort(key=lambda s: not s['flag'])     # split by a flagged one
+        split, *rest = surfs
+        shift = rng.choice(FAMILY_TRS)
+        box = [s['id'] if rng.random() < 0.5 else -s['id'] for s in rest]
+
+        def ucell(cid, lits):
+            return {'id': cid, 'imp': 1, 'expr': ' '.join(map(str, lits)),
+                    'refs': sorted({abs(x) for x in lits}), 'opts': ' u=1',
+                    'fillshift': shift}
+        cells = [{'id': 1, 'imp': 1, 'expr': ' '.join(map(str, box)),
+                  'refs': sorted({abs(x) for x in box}),
+                  'opts': f' fill=1 ({shift})'},
+                 ucell(2, [-split['id']]), ucell(3, [split['id']]),
+                 {'id': 4, 'imp': 0, 'expr': str(rest[0]['id']),
+                  'refs': [rest[0]['id']]}]
+        return {'surfs': surfs, 'cells': cells, 'trs': trs, 'fault': None,
+                'feature': 'family-fill'}
+    cells = []
+    for c in range(rng.randint(1, 2)):
+        lits = [s['id'] if rng.random() < 0.5 else -s['id'] for s in surfs]
+        rng.shuffle(lits)
+        cell = {'id': c + 1, 'imp': 1, 'expr': ' '.join(map(str, lits)),
+                'refs': sorted({abs(x) for x in lits})}
+        if mode == 'trcl':
+            cell['trcl'] = rng.choice(FAMILY_TRS)
+            cell['order'] = lits
+        cells.append(cell)
+    cells.append({'id': len(cells) + 1, 'imp': 0, 'expr': str(surfs[0]['id']),
+                  'refs': [surfs[0]['id']]})
+    return {'surfs': surfs, 'cells': cells, 'trs': trs, 'fault': None,
+            'feature': 'family-' + mode}
+
+
+def family_corpus():
+    '''Fixed sweep-only decks: a flagged surface of a family the pool of the
+    tie stream does not hold, moved by TR / TRCL / FILL (the flag has to
+    travel through transformation() with the surface).'''
+    def card(i, flag, text, tr=None):
+        d = {'id': i, 'flag': flag, 'text': text, 'mcnp': 1,
+             'cls': 2000 + FAMILIES.index(text), 'aux': [], 'single': True,
+             'pool': None, 'locus': text}
+        if tr:
+            d['tr'] = tr
+        return d
+
+    def plain(surfs, trs, trcl=None):
+        lits = [-s['id'] for s in surfs]
+        cell = {'id': 1, 'imp': 1, 'expr': ' '.join(map(str, lits)),
+                'refs': sorted(abs(x) for x in lits)}
+        if trcl:
+            cell['trcl'], cell['order'] = trcl, lits
+        return {'surfs': surfs, 'trs': trs, 'fault': None, 'feature': 'corpus',
+                'cells': [cell, {'id': 2, 'imp': 0, 'expr': str(surfs[0]['id']),
+                                 'refs': [surfs[0]['id']]}]}
+    rot = [float(x) for x in FAMILY_TRS[3].split()]
+    out = [plain([card(5, '*', FAMILIES[26], 7), card(9, '', 'so 6')], {7: rot}),
+           plain([card(5, '+', FAMILIES[27]), card(9, '', 'so 6')], {},
+                 FAMILY_TRS[4]),
+           plain([card(5, '*', FAMILIES[29], 7), card(9, '', 'so 6')],
+                 {7: [1.0, 0.0, 0.0]}),
+           plain([card(5, '+', FAMILIES[31], 7), card(9, '*', 'p 1 2 -1 3')],
+                 {7: rot}),
+           plain([card(5, '*', FAMILIES[22]), card(9, '', 'so 6')], {},
+                 FAMILY_TRS[5])]
+    shift = FAMILY_TRS[1]
+    split, a, b = card(5, '*', FAMILIES[28]), card(9, '', 'so 6'), card(3, '', 'pz 1')
+    ucell = lambda cid, lits: {'id': cid, 'imp': 1, 'opts': ' u=1',
+                               'expr': ' '.join(map(str, lits)),
+                               'refs': sorted({abs(x) for x in lits}),
+                               'fillshift': shift}
+    out.append({'surfs': [split, a, b], 'trs': {}, 'fault': None,
+                'feature': 'corpus',
+                'cells': [{'id': 1, 'imp': 1, 'expr': '-9 3', 'refs': [3, 9],
+                           'opts': f' fill=1 ({shift})'},
+                          ucell(2, [-5]), ucell(3, [5]),
+                          {'id': 4, 'imp': 0, 'expr': '9', 'refs': [9]}]})
+    return out
+
+
 def gen_rich(rng):
+    if rng.random() < 0.4:
+        return gen_family(rng)
     n = rng.randint(3, 7)
     ids = rng.sample(range(1, 60), n + 6)
     surfs = []
@@ -1020,7 +1144,17 @@ def gen_fill(rng, surfs, trs):
 # ---- unit ties -------------------------------------------------------------
 
 def tie_split(res, rng, n):
-    from MIP.geom.surfaces import re_name
+    try:
+        from MIP.geom.surfaces import re_name
+        re_name.match('*1').groups()
+    except Exception:               # pylint: disable=broad-except
+        # a module-level helper, not a function the anchors name: when a
+        # rewrite removes it the split is still exercised through
+        # get_surfaces by every conversion of tie:run
+        res.extra.setdefault('skipped', []).append(
+            'skipped: helper MIP.geom.surfaces.re_name not present '
+            '(tie:split); the flag/number split is tied through tie:run')
+        return
     cases, meta = [], []
     alphabet = '*+*+0123456789 a-'
     strings = ['', '*', '+', '*1', '+1', '1', '**12', '*+3', '1*', '1+2',
@@ -1217,13 +1351,17 @@ def run(res, tier, seed, proofs_ok):
     corpus = [(witness(kind), args)
               for kind in ('dedup', 'unused', 'trcl', 'trclcopy', 'trclskipped')
               for args in ([], ['--skip-deduplication'])] + corpus_decks()
-    import c16_cov
-    cov = c16_cov.LineCov(c16_cov.anchored_functions())
-    cov_upto = 150                  # traced conversions: corpus + first decks
-    cov.__enter__()
+    cov, cov_absent, cov_upto = None, [], 150
+    try:                            # information only: never raises
+        import c16_cov
+        cov_funcs, cov_absent = c16_cov.anchored_functions()
+        cov = c16_cov.LineCov(cov_funcs)
+        cov.__enter__()
+    except Exception as exc:        # pylint: disable=broad-except
+        cov, cov_absent = None, [f'coverage not started: {exc!r}'[:200]]
     for i in range(-len(corpus), n_valid + n_bad):
-        if i == cov_upto:
-            cov.__exit__()
+        if i == cov_upto and cov is not None:
+            sys.settrace(None)      # pause: the sweep-only stream resumes it
         if i < 0:                   # fixed corpus first (not counted below)
             deck, args = corpus[i]
         else:
@@ -1264,15 +1402,6 @@ def run(res, tier, seed, proofs_ok):
     res.extra['guard'] = {'flagged decks converted (theorems apply, no '
                           'guard)': inside,
                           'of which with a non-empty block': outside}
-    total, missing = cov.missing(c16_cov.UNREACHABLE)
-    res.obligation(f'line coverage ({total} lines of get_surfaces, '
-                   'recuperateBoundaryCondition, conversionBoundCond, '
-                   'writeT4BoundCond, remove_duplicate_surfaces, '
-                   'renumber_surfaces, number_items, transformation, '
-                   'extract_tr_surf_ids, remove_unused_volumes by the first '
-                   f'{cov_upto + len(corpus)} tied conversions)',
-                   not missing, '; '.join(f'{n}:{ln} {t}' for n, ln, t in
-                                          missing[:8]))
     bad, errs = common.run_case_files('c16_run', HEADER, 'run_w_case',
                                       'check_run_w', cases)
     res.obligation(f'tie:run ({len(cases)} conversions: Model.run = SURF ids/'
@@ -1297,9 +1426,15 @@ def run(res, tier, seed, proofs_ok):
                       found_input=False)
 
     # ---- 4. sweep outside the model ----
-    for i in range(n_rich):
-        deck = gen_rich(rng)
-        args = args_for(rng)
+    fam = family_corpus()
+    for i in range(-len(fam), n_rich):
+        if cov is not None and i in (-len(fam), 120):
+            sys.settrace(cov._global if i < 0 else None)    # first ones traced
+        if i < 0:
+            deck, args = fam[i], (['--skip-deduplication'] if i % 2 else [])
+        else:
+            deck = gen_rich(rng)
+            args = args_for(rng)
         conv, t4, _ = observe(deck, args)
         text = render(deck)
         res.seen((text, args), nontrivial=True)
@@ -1311,6 +1446,23 @@ def run(res, tier, seed, proofs_ok):
         report(res, deck, args, probs, 'rich stream')
         if i == 0:
             res.sample({'deck': text, 'args': args})
+    try:
+        sys.settrace(None)
+        if cov is not None:
+            total, missing = cov.missing(c16_cov.UNREACHABLE)
+            res.obligation(
+                f'line coverage ({total} lines of the anchored functions by '
+                f'the first {cov_upto + len(corpus)} tied conversions and '
+                'the first 120 sweep-only conversions'
+                + (f'; not present: {", ".join(cov_absent)}' if cov_absent
+                   else '') + ')',
+                not missing and not cov_absent,
+                '; '.join(f'{n}:{ln} {t}' for n, ln, t in missing[:8]))
+        else:
+            res.obligation('line coverage (not measured)', False,
+                           '; '.join(cov_absent))
+    except Exception as exc:        # pylint: disable=broad-except
+        res.obligation('line coverage (not measured)', False, repr(exc)[:200])
 
 
 def replay(path):
